@@ -1,5 +1,6 @@
 import GqlProofs.PlanDefer5
 import GqlProofs.PlanSerial2
+import GqlProofs.PlanBfs2
 /-! # With deferred values: the roots and the request level -/
 namespace GqlModel.Plan
 open GqlModel.Exec GqlModel.Coerce
@@ -93,7 +94,7 @@ def RootRel (c : Ctx) (pv : Option Vars) (rank : String → Nat) (F : Nat) (sett
   | .fuelOut => False
 
 /-- the root of a mutation: every top-level value is settled when the next field starts, and it is the algorithm's value -/
-theorem mRootMut_gen (hw : flatWorld c.world = true) (hac : Acyclic c.frags rank) (hfr : FragsOK c pv) (rt : String) :
+theorem mRootMut_gen (hac : Acyclic c.frags rank) (hfr : FragsOK c pv) (rt : String) :
     ∀ (fuel : Nat), fuel ≤ F → ∀ (fps : List FieldPlan) (accS : List (String × JVal)) (acc : List (String × PVal))
     (st : St) (mst : MSt) (rS : Res (List (String × JVal))) (stS : St),
     (∀ fp ∈ fps, FpOK c.schema rt (NodeOK c pv rank) fp) → SVf c pv rank F acc accS → PVal.fieldsToJ? acc = some accS →
@@ -120,17 +121,16 @@ theorem mRootMut_gen (hw : flatWorld c.world = true) (hac : Acyclic c.frags rank
     cases hfd : fp.fieldDef with
     | none =>
       simp only [hfd] at h
-      exact mRootMut_gen hw hac hfr rt fuel hle' rest accS acc st mst rS stS hrest hacc haccJ h hr hkf
+      exact mRootMut_gen hac hfr rt fuel hle' rest accS acc st mst rS stS hrest hacc haccJ h hr hkf
     | some fd =>
       simp only [hfd, List.nil_append] at h
       have hk1 := kfExt_field c fuel false rt .nil [.key fp.key] fd fp.fieldNodes st
       rcases hS : execField c fuel false rt .nil [.key fp.key] fd fp.fieldNodes st with ⟨r1, st1⟩
       rw [hS] at h hk1
       simp only at hk1
-      have hfl := (flatP (c := c) (alt := alt0) hw fuel).field false rt .nil [.key fp.key] [(rt, fp.key)] fp fd mst
       have hnd := (nodupP (c := c) (alt := alt0) (altND_recompute _ _ _) fuel).field false rt .nil [.key fp.key] [(rt, fp.key)] fp fd mst
       rcases hM1 : mField c alt0 fuel false rt .nil [.key fp.key] [(rt, fp.key)] fp fd mst with ⟨rM1, mst1⟩
-      rw [hM1] at hfl hnd
+      rw [hM1] at hnd
       cases r1 with
       | ok j =>
         simp only at h
@@ -138,16 +138,16 @@ theorem mRootMut_gen (hw : flatWorld c.world = true) (hac : Acyclic c.frags rank
         rw [h] at hk2
         simp only at hk2
         obtain ⟨hkA, hkB⟩ := KfExt.same hk1 hk2 hkf
-        have hf := (genP (F := F) hw hac hfr fuel hle').field false rt .nil [.key fp.key] [(rt, fp.key)] fp fd st mst _ _
+        have hf := (genP (F := F) hac hfr fuel hle').field false rt .nil [.key fp.key] [(rt, fp.key)] fp fd st mst _ _
           hfp hfd hS (by simp) hkA
         simp only [hM1] at hf
         obtain ⟨x, hx, hsv⟩ := hf
         subst hx
         simp only [hM1]
         -- force everything the field deferred, now
-        have hd1 := (dfsV (frcSV_force (c := c) (pv := pv) (rank := rank) (F := F) hw hac hfr) F).val x j mst1 hsv
-        have hd2 := (dfsS (frcFlat_force (c := c) (alt := alt0) hw (altND_recompute _ _ _) F) F).val x mst1 (hfl x rfl) (hnd x rfl)
-        generalize dfsVal (force c alt0 F) F x mst1 = z at hd1 hd2 ⊢
+        have hd1 := (dfsV (frcSV_forceAll (c := c) (pv := pv) (rank := rank) (F := F) hac hfr) F).val x j mst1 hsv
+        have hd2 := (dfsS (frcFlat_forceAll (c := c) (alt := alt0) (altND_recompute _ _ _) F) F).val x mst1 (hnd x rfl)
+        generalize dfsVal (forceAll c alt0 F) F x mst1 = z at hd1 hd2 ⊢
         obtain ⟨r2, mst2⟩ := z
         cases r2 with
         | fail => exact absurd hd1 id
@@ -156,12 +156,12 @@ theorem mRootMut_gen (hw : flatWorld c.world = true) (hac : Acyclic c.frags rank
           simp only
           have hsv' : SV c pv rank F x' j := hd1
           have hj' : x'.toJ? = some j := sv_toJ hsv' (hd2 x' rfl)
-          exact mRootMut_gen hw hac hfr rt fuel hle' rest _ _ st1 mst2 rS stS hrest (svf_append hsv' hacc)
+          exact mRootMut_gen hac hfr rt fuel hle' rest _ _ st1 mst2 rS stS hrest (svf_append hsv' hacc)
             (fieldsToJ?_append haccJ hj') h hr hkB
       | fail =>
         simp only [Prod.mk.injEq] at h
         obtain ⟨rfl, rfl⟩ := h
-        have hf := (genP (F := F) hw hac hfr fuel hle').field false rt .nil [.key fp.key] [(rt, fp.key)] fp fd st mst _ _
+        have hf := (genP (F := F) hac hfr fuel hle').field false rt .nil [.key fp.key] [(rt, fp.key)] fp fd st mst _ _
           hfp hfd hS (by simp) hkf
         simp only [hM1] at hf
         subst hf
@@ -172,19 +172,19 @@ theorem mRootMut_gen (hw : flatWorld c.world = true) (hac : Acyclic c.frags rank
         exact absurd h.1.symm hr
 
 /-- the walk of a plan against the algorithm's walk of the root groups, with deferred values, outside D-04c -/
-theorem runPlan_gen (hw : flatWorld c.world = true) (hac : Acyclic c.frags rank) (hfr : FragsOK c pv) (q : Plan)
+theorem runPlan_gen (hac : Acyclic c.frags rank) (hfr : FragsOK c pv) (q : Plan)
     (sel : SelectionSet) (hroot : q.root = planSelectionSet c.schema c.frags pv q.rootType sel)
     (hreg : Regime pv c.vars (setDynamic sel)) (rS : Res (List (String × JVal))) (stS : St)
     (h : execGroups c F false q.rootType .nil [] (collect c q.rootType sel ([], [])).1 [] St.empty = (rS, stS))
     (hr : rS ≠ .fuelOut) (hkf : stS.kfThunk = []) (mst : MSt) :
-    RootRel c pv rank F q.isMutation rS (runPlan c alt0 q F mst).1 := by
+    RootRel c pv rank F true rS (runPlan c alt0 q F mst).1 := by
   obtain ⟨hgo, hfps⟩ := planSelectionSet_sim (rt := q.rootType) hac hfr sel hreg
   rw [← hgo, ← hroot] at h
   rw [← hroot] at hfps
   unfold runPlan
   by_cases hmut : q.isMutation = true
   · simp only [hmut, if_true]
-    have hm := mRootMut_gen (F := F) hw hac hfr q.rootType F (Nat.le_refl _) q.root [] [] St.empty mst rS stS hfps .nil rfl h hr hkf
+    have hm := mRootMut_gen (F := F) hac hfr q.rootType F (Nat.le_refl _) q.root [] [] St.empty mst rS stS hfps .nil rfl h hr hkf
     generalize mRootMut c alt0 F F q.rootType q.root [] mst = z at hm ⊢
     obtain ⟨r1, mst1⟩ := z
     rcases hm with hm | hm
@@ -196,7 +196,7 @@ theorem runPlan_gen (hw : flatWorld c.world = true) (hac : Acyclic c.frags rank)
         subst hp
         simp only
         have hnd : ∀ x ∈ pfs, NoDef x.2 := allCl_obj.1 (noDef_of_toJ? (.obj pfs) (.obj fs) (toJ?_obj (hj trivial)))
-        rcases (dfsId (frc := force c alt0 F) F).fields (sortedKeys pfs) pfs mst1 hnd with h2 | h2 <;> rw [h2]
+        rcases (dfsId (frc := forceAll c alt0 F) F).fields (sortedKeys pfs) pfs mst1 hnd with h2 | h2 <;> rw [h2]
         · exact .inl rfl
         · exact .inr ⟨pfs, rfl, hsv, fun _ => hj trivial⟩
       | fail =>
@@ -206,27 +206,34 @@ theorem runPlan_gen (hw : flatWorld c.world = true) (hac : Acyclic c.frags rank)
       | fuelOut => exact absurd rfl hr
   · have hmut' : q.isMutation = false := by simpa using hmut
     simp only [hmut', Bool.false_eq_true, if_false]
-    have hg := (genP (F := F) hw hac hfr F (Nat.le_refl _)).groups false q.rootType .nil [] [] q.root [] [] St.empty mst rS stS
+    have hg := (genP (F := F) hac hfr F (Nat.le_refl _)).groups false q.rootType .nil [] [] q.root [] [] St.empty mst rS stS
       hfps .nil h hr hkf
-    generalize mGroups c alt0 F false q.rootType .nil [] [] q.root [] mst = z at hg ⊢
+    generalize hz0 : mGroups c alt0 F false q.rootType .nil [] [] q.root [] mst = z at hg ⊢
     obtain ⟨r1, mst1⟩ := z
     cases rS with
     | ok fs =>
       simp only at hg
       obtain ⟨pfs, hp, hsv⟩ := hg
       subst hp
+      have hz : (mGroups c alt0 F false q.rootType .nil [] [] q.root [] mst).1 = .ok pfs := by rw [hz0]
       simp only
-      have hb := bfsLoop_sv (frcSV_force (c := c) (pv := pv) (rank := rank) (F := F) hw hac hfr) (.obj fs) F (.obj pfs) [[]] mst1
+      have hb := bfsLoop_sv (frcSV_forceAll (c := c) (pv := pv) (rank := rank) (F := F) hac hfr) (.obj fs) F (.obj pfs) [[]] mst1
         (.obj hsv)
-      have ho := bfsLoop_obj (frc := force c alt0 F) F (.obj pfs) [[]] mst1 ⟨pfs, rfl⟩
-      generalize bfsLoop (force c alt0 F) F (.obj pfs) [[]] mst1 = z2 at hb ho ⊢
+      have ho := bfsLoop_obj (frc := forceAll c alt0 F) F (.obj pfs) [[]] mst1 ⟨pfs, rfl⟩
+      -- the phase-one result is a map with distinct keys all the way down, so the breadth-first pass settles it
+      have hkn : KeysNodup q.root := by rw [hroot]; exact keysNodup_planSelectionSet _ _ _ _ _
+      have hnd1 := (nodupP (c := c) (alt := alt0) (altND_recompute _ _ _) F).groups false q.rootType .nil [] [] q.root [] mst
+        (by simpa [KeysNodup] using hkn) (fun _ h => by cases h) pfs (by rw [hz])
+      have hs := bfsLoop_settles (frcFlat_forceAll (c := c) (alt := alt0) (altND_recompute _ _ _) F) F pfs mst1 (ndv_obj.2 hnd1)
+      generalize bfsLoop (forceAll c alt0 F) F (.obj pfs) [[]] mst1 = z2 at hb ho hs ⊢
       obtain ⟨r2, mst2⟩ := z2
       cases r2 with
       | ok root' =>
         obtain ⟨gs, rfl⟩ := ho root' rfl
         have hsv' : SV c pv rank F (.obj gs) (.obj fs) := hb
+        have hno : NoDef (.obj gs) := hs _ rfl
         cases hsv' with
-        | obj hf => exact .inr ⟨gs, rfl, hf, fun hh => by cases hh⟩
+        | obj hf => exact .inr ⟨gs, rfl, hf, fun _ => svf_toJ hf (by simpa [NoDef, PVal.AllCl] using hno)⟩
       | fail => exact absurd hb id
       | fuelOut => exact .inl rfl
     | fail =>
@@ -239,19 +246,16 @@ end roots
 
 /-! ## the request level -/
 
-/-- **with deferred values, outside D-04c** (`kf = []`), on a flat world and an acyclic fragment table: when the algorithm answers
-with data, so does M (same class); whenever M's data can be read as a JSON value (no closure left in it) it IS the algorithm's
-data; and for a mutation it always can. -/
+/-- **with deferred values, outside D-04c** (`kf = []`), on an acyclic fragment table: M answers in the algorithm's class (data / no
+data), M's data contains no closure, and read as a JSON value it IS the algorithm's data. -/
 theorem run_data_eq_execute (s : Schema) (doc : Document) (opName : String) (inputs : Vars) (w : World) (fuel : Nat)
-    (rank : String → Nat) (hw : flatWorld w = true) (hac : Acyclic doc.fragments rank)
+    (rank : String → Nat) (hac : Acyclic doc.fragments rank)
     (d : Option (List (String × JVal))) (errs : List (Path × Bool)) (log : List LogEntry)
     (hS : execute s doc opName inputs w fuel = .result d errs log [])
     (hM : run s doc opName inputs w fuel ≠ .fuelOut) :
     ∃ md merrs mev, run s doc opName inputs w fuel = .result md merrs mev ∧
       (d = none ↔ md = none) ∧
-      (∀ fs pfs js, d = some fs → md = some pfs → PVal.fieldsToJ? pfs = some js → js = fs) ∧
-      (∀ p, planQuery s doc opName = .ok p → p.isMutation = true →
-        ∀ fs pfs, d = some fs → md = some pfs → PVal.fieldsToJ? pfs = some fs) := by
+      (∀ fs pfs, d = some fs → md = some pfs → PVal.fieldsToJ? pfs = some fs) := by
   obtain ⟨c, root, sel, rS, stS, hctx, hrun, _, _, hkf, hdata⟩ := execute_result hS
   -- unfold the request context
   unfold requestCtx at hctx
@@ -291,11 +295,10 @@ theorem run_data_eq_execute (s : Schema) (doc : Document) (opName : String) (inp
               ∃ md merrs mev, MResponse.of (runPlan { schema := s, frags := doc.fragments, vars := vars, world := w }
                   (recompute s doc.fragments pv) q fuel { errs := [], events := [], memo := [] }) = .result md merrs mev ∧
                 (d = none ↔ md = none) ∧
-                (∀ fs pfs js, d = some fs → md = some pfs → PVal.fieldsToJ? pfs = some js → js = fs) ∧
-                ((op == .mutation) = true → ∀ fs pfs, d = some fs → md = some pfs → PVal.fieldsToJ? pfs = some fs) := by
+                (∀ fs pfs, d = some fs → md = some pfs → PVal.fieldsToJ? pfs = some fs) := by
             intro pv q hqr hqm hqroot hfr hreg hne
             have hrel := runPlan_gen (c := { schema := s, frags := doc.fragments, vars := vars, world := w }) (pv := pv)
-              (rank := rank) (F := fuel) hw hac hfr q sel0 (by rw [hqroot, hqr]) hreg rS stS (by rw [hqr]; exact hrun) hrS
+              (rank := rank) (F := fuel) hac hfr q sel0 (by rw [hqroot, hqr]) hreg rS stS (by rw [hqr]; exact hrun) hrS
               hkf.symm { errs := [], events := [], memo := [] }
             generalize runPlan { schema := s, frags := doc.fragments, vars := vars, world := w }
               (recompute s doc.fragments pv) q fuel { errs := [], events := [], memo := [] } = out at hrel hne ⊢
@@ -305,43 +308,26 @@ theorem run_data_eq_execute (s : Schema) (doc : Document) (opName : String) (inp
             · rcases hdata with ⟨fs, rfl, rfl⟩ | ⟨rfl, rfl⟩
               · simp only at hrel
                 obtain ⟨pfs, rfl, hsv, hj⟩ := hrel
-                refine ⟨some pfs, _, _, rfl, by simp, ?_, ?_⟩
-                · intro fs' pfs' js h1 h2 h3
-                  simp only [Option.some.injEq] at h1 h2
-                  subst h1; subst h2
-                  exact svf_toJ_eq hsv h3
-                · intro hm fs' pfs' h1 h2
-                  simp only [Option.some.injEq] at h1 h2
-                  subst h1; subst h2
-                  exact hj (by rw [hqm]; exact hm)
+                refine ⟨some pfs, _, _, rfl, by simp, ?_⟩
+                intro fs' pfs' h1 h2
+                simp only [Option.some.injEq] at h1 h2
+                subst h1; subst h2
+                exact hj trivial
               · simp only at hrel
                 subst hrel
-                refine ⟨none, _, _, rfl, by simp, ?_, ?_⟩
-                · intro _ _ _ h1; cases h1
-                · intro _ _ _ h1; cases h1
+                refine ⟨none, _, _, rfl, by simp, ?_⟩
+                intro _ _ h1; cases h1
           by_cases hd : docDynamic doc = true
           · simp only [hd, if_true] at hM ⊢
-            obtain ⟨md, merrs, mev, h1, h2, h3, h4⟩ := key (some vars)
+            exact key (some vars)
               (Plan.specialise (Plan.mk s varDefs sel0 doc.fragments root0 (op == .mutation) true none []) vars)
               rfl rfl rfl (fun _ _ _ _ => .inl rfl) (.inl rfl) hM
-            refine ⟨md, merrs, mev, h1, h2, h3, ?_⟩
-            intro p hp' hmut
-            rw [hp] at hp'
-            simp only [Except.ok.injEq] at hp'
-            subst hp'
-            exact h4 hmut
           · have hd' : docDynamic doc = false := by simpa using hd
             simp only [hd', Bool.false_eq_true, if_false] at hM ⊢
-            obtain ⟨md, merrs, mev, h1, h2, h3, h4⟩ := key none
+            exact key none
               (Plan.mk s varDefs sel0 doc.fragments root0 (op == .mutation) false none (planSelectionSet s doc.fragments none root0 sel0))
               rfl rfl rfl (fun n tc body hf => .inr ⟨rfl, static_of_docDynamic_frag hd' hf⟩)
               (.inr ⟨rfl, static_of_docDynamic_op hd' hmem⟩) hM
-            refine ⟨md, merrs, mev, h1, h2, h3, ?_⟩
-            intro p hp' hmut
-            rw [hp] at hp'
-            simp only [Except.ok.injEq] at hp'
-            subst hp'
-            exact h4 hmut
     | _ => simp [hsel] at hctx
 
 end GqlModel.Plan
